@@ -611,11 +611,6 @@ fn judge_read(m: &mut Model, rc: &ReadCtx, begin_seq: u64, res: &Result<(Option<
                 if now + 1_000_000 < t0.saturating_add(tl) {
                     violate("early_timeout", format!("early_timeout/limit_class={}", limit_class(tl)), format!("{}: timeout reported at {} ns, but the limit {} ns counted from the library's first clock reading {} ends at {}", ctx, now, tl, t0, t0.saturating_add(tl)));
                 }
-                // all streams already finished? then it was not a timeout
-                let all_eof = (!m.cap_out || m.at_eof(m.pout)) && (!m.cap_err || m.at_eof(m.perr)) && m.pin.map(|p| sim().k.pipes[p].hist.len() >= m.input.len() && !sim().k.pipes[p].w_open).unwrap_or(true);
-                if all_eof {
-                    violate("eof_as_timeout", "eof_as_timeout".into(), format!("{}: every stream had reached end-of-file, yet a timeout was reported", ctx));
-                }
             }
         }
     }
